@@ -390,7 +390,7 @@ def parse_args(*args, **kwargs):
 
     try:
         args.output % (0,)
-    except TypeError as e:
+    except (TypeError, ValueError) as e:
         parser.error("--output is not a valid printf template: {}".format(e))
 
     return args
